@@ -1,39 +1,44 @@
 ------------------------------ MODULE VFSeek_MC ------------------------------
 (***************************************************************************)
 (* Exhaustive check of the page search of ov_pcm_seek_page over every      *)
-(* small link layout: up to MaxPages pages of lengths 1 / 2 / 5 units      *)
-(* (CHUNKSIZE = 4 units: pages shorter than, comparable to and longer than *)
-(* a probe step), any interleaving with pages of a foreign multiplexed     *)
-(* stream, any subset of our pages without a granule position, every       *)
-(* target.  Checked: the loops terminate, they settle on the last page of  *)
-(* ours whose granule position is below the target, and when there is no   *)
-(* such page the hand-over to the first-page special case succeeds.        *)
-(* EndAt = "data" models offsets[link+1] = end of the data (the repaired   *)
-(* tree); EndAt = "lastpage" models the pinned tree, where the last link   *)
-(* ended at the START of its last page.                                    *)
+(* small link layout: up to MaxPages pages with lengths from Lens (against *)
+(* a probe step of Chunk: pages shorter than, comparable to and as long as *)
+(* a step), any interleaving with pages of a foreign multiplexed stream,   *)
+(* any subset of our pages without a granule position, an optional page of *)
+(* the next link behind the link's end, every target, two initial file     *)
+(* positions.  Checked: the loops terminate, and the page handed to the    *)
+(* stream layer is the one decoding has to start from: the last page of    *)
+(* ours whose granule position is below the target, or the first page of   *)
+(* ours when there is none.                                                *)
+(* EndAt = "data" models offsets[link+1] = end of the link's data (the     *)
+(* repaired tree); "lastpage" the pinned tree, where the last link ended   *)
+(* at the START of its last page.  BackUpRule / HandOver: see VFSeek.      *)
 (***************************************************************************)
 EXTENDS VFSeek, TLC
-CONSTANTS MaxPages, EndAt, Lens, Chunk
-VARIABLES lens, kind, target
-vars == <<lens, kind, target>>
-K == [chunk |-> Chunk, near |-> 3]
+CONSTANTS MaxPages, EndAt, Lens, Chunk, Read, BackUpRule, HandOver
+VARIABLES lens, kind, tail, target, off0
+vars == <<lens, kind, tail, target, off0>>
+K == [chunk |-> Chunk, near |-> 3, read |-> Read, backup |-> BackUpRule, handover |-> HandOver]
 \* kind[i]: 0 foreign page, 1 ours without granule position, 2 ours with granule position
 Off(l, i) == LET RECURSIVE S(_) S(j) == IF j = 0 THEN 0 ELSE S(j - 1) + l[j] IN S(i - 1)
 Gp(k, i) == 3 * Cardinality({ j \in 1..i : k[j] = 2 })          \* our granule-bearing pages end at 3, 6, 9, ...
-PG == [i \in 1..Len(lens) |-> [off |-> Off(lens, i), len |-> lens[i], ours |-> kind[i] # 0, gp |-> IF kind[i] = 2 THEN Gp(kind, i) ELSE -1]]
-FileEnd == Off(lens, Len(lens) + 1)
-LastOurs == CHOOSE i \in 1..Len(lens) : kind[i] = 2 /\ \A j \in 1..Len(lens) : kind[j] = 2 => j <= i
-EndTime == Gp(kind, Len(lens))
-EndOff == IF EndAt = "data" THEN FileEnd ELSE PG[Len(lens)].off
+N == Len(lens)
+LinkEnd == Off(lens, N + 1)
+PG == [i \in 1..(N + tail) |-> IF i <= N THEN [off |-> Off(lens, i), len |-> lens[i], ours |-> kind[i] # 0, gp |-> IF kind[i] = 2 THEN Gp(kind, i) ELSE -1]
+                                ELSE [off |-> LinkEnd, len |-> 2, ours |-> FALSE, gp |-> 0]]
+EndTime == Gp(kind, N)
+EndOff == IF EndAt = "data" THEN LinkEnd ELSE PG[N].off
 Init == /\ lens \in UNION { [1..n -> Lens] : n \in 1..MaxPages }
         /\ kind \in [1..Len(lens) -> {0, 1, 2}]
         /\ kind[Len(lens)] = 2                                   \* a link ends with a page of ours that carries the final granule position
-        /\ target \in 0..(EndTime - 1)                             \* 0 <= pos < total
+        /\ tail \in {0, 1}
+        /\ target \in 0..(EndTime - 1)                           \* 0 <= pos < total
+        /\ off0 \in {0, LinkEnd}
 Next == UNCHANGED vars
 Spec == Init /\ [][Next]_vars
 
-R == Search(PG, 0, EndOff, 0, EndTime, target, K)
+R == Submit(PG, 0, EndOff, 0, EndTime, target, K, off0)
 Terminates == R.steps >= 0
-FindsTheRightPage == R.steps >= 0 => R.best = Wanted(PG, 0, target)
-FirstPageHandOver == (R.steps >= 0 /\ Wanted(PG, 0, target) = -1) => FirstPageCaseOK(PG, R, 0)
+SubmitsTheRightPage == R.steps >= 0 => R.sub = RightPage(PG, 0, LinkEnd, target)
+\* non-vacuity: the first-page case, a back-up step and a forward read occur among the layouts
 =============================================================================
